@@ -304,4 +304,41 @@ theorem Link_fitformat_raw (bs : Bytes) (hb : IsBytes bs) (hne : bs ≠ []) (seg
 example : (FitFormat.segments [14, 32, 0, 0, 16, 0, 0, 0, 46, 70, 73, 84, 0, 0,  0x42, 0, 0, 20, 0, 2, 3, 1, 2, 4, 0, 2,  0xC5, 9,  2, 7,  0, 0,
     12, 32, 0, 0, 9, 0, 0, 0, 46, 70, 73, 84,  0x40, 0, 1, 0, 0, 1, 0, 1, 2,  0, 0]).map List.length = some 8 := by decide +kernel
 
+/-! ## (A) the wire model against (D) -/
+
+/-- the FULL link (A) = (D) in the common form `WEv` (definitions; per message header byte, number and the bytes of the fields;
+per sequence header and CRCs; error class), for every stream. FALSE: `Link_wire_full_false`. -/
+def Link_wire_eq_decprog_full : Prop :=
+  ∀ (tsKnown : Nat → Bool) (chk : Bool) (bs : List Nat), (∀ b ∈ bs, b < 256) →
+    wireObsA (Wire.decodeStream tsKnown chk (bs.length + 1) true bs) =
+      wireObsD (runExact (DecProg.decodeLoop chk (bs.length + 1) true []) bs)
+
+/-- the sub-domain on which the link is expected (exercised by the driver op `linkwire` on every decw line, not proved): streams on
+which every field description (A) records has a valid base type -/
+def Link_wire_eq_decprog_partial_stmt : Prop :=
+  ∀ (tsKnown : Nat → Bool) (chk : Bool) (bs : List Nat), (∀ b ∈ bs, b < 256) →
+    fdValidA (Wire.decodeStream tsKnown chk (bs.length + 1) true bs).1 = true →
+    wireObsA (Wire.decodeStream tsKnown chk (bs.length + 1) true bs) =
+      wireObsD (runExact (DecProg.decodeLoop chk (bs.length + 1) true []) bs)
+
+/-- the stream of disagreement D1 (notes/links.md): a `field_description` with fit_base_type_id 0x55, then a developer field
+that refers to it -/
+def d1Stream : List Nat :=
+  [0x0e, 0x20, 0, 0, 0x23, 0, 0, 0, 0x2e, 0x46, 0x49, 0x54, 0, 0,
+   0x40, 0, 0, 0xce, 0, 3, 0, 1, 2, 1, 1, 2, 2, 1, 2,   0, 0, 0, 0x55,
+   0x61, 0, 0, 0x14, 0, 1, 3, 1, 2, 1, 0, 1, 0,   1, 0x50, 7,   0, 0]
+
+/-- **(A) ≠ (D) — a genuine disagreement between two models, decided by the kernel.** On `d1Stream` the reader-client model
+(D) ends with `invalidBaseType` (as the real decoder does: `decodeDeveloperFields` rejects a field description whose base type
+is not valid; the API model (C) agrees by `Link_decprog_eq_api`), the wire model (A) of C01 accepts the record and the
+sequence. The family of (A) never generated such a stream; `corpus/decw.txt` now holds it. -/
+theorem Link_wire_full_false : ¬ Link_wire_eq_decprog_full ∧
+    (runExact (DecProg.decodeLoop false (d1Stream.length + 1) true []) d1Stream).status = some .invalidBaseType ∧
+    (Wire.decodeStream (fun _ => true) false (d1Stream.length + 1) true d1Stream).2 = none ∧
+    fdValidA (Wire.decodeStream (fun _ => true) false (d1Stream.length + 1) true d1Stream).1 = false := by
+  refine ⟨fun h => ?_, by decide +kernel, by decide +kernel, by decide +kernel⟩
+  have := h (fun _ => true) false d1Stream (by decide)
+  revert this
+  decide +kernel
+
 end Fit.Links
